@@ -71,12 +71,18 @@ type hTask struct {
 	// called with MOD=a or MOD=b; the model treats the two parametrisations as two tasks (IDs tK-a, tK-b)
 	Param    string // "", "a", "b"
 	NoRender bool   // the second parametrisation: the Taskfile task is rendered for the first one
+	IgnAll   bool   // every command of the task has ignore_error: true (a failing command does not fail the task; an interrupted one does)
 }
 
 type hProj struct {
 	FileMethod string
 	Tasks      []*hTask
+	Symlink    bool // src/link.txt is a symbolic link to other/z.txt (a source for every glob that matches src/*.txt)
 }
+
+// hLong pads labels beyond any plausible file-name budget: records of different tasks must stay apart however
+// long their names are
+const hLong = "-padding-0123456789-0123456789-0123456789-0123456789-0123456789-"
 
 var hGlobPool = [][]hGlob{
 	{{"src/*.txt", false}},
@@ -113,6 +119,7 @@ func genHProj(ch *vs.Choices, prop string) *hProj {
 	if ch.Bool(1, 3) {
 		p.FileMethod = []string{"checksum", "timestamp"}[ch.Draw(2)]
 	}
+	p.Symlink = ch.Bool(1, 3)
 	n := 1 + ch.Draw(3)
 	for i := 0; i < n; i++ {
 		t := &hTask{ID: fmt.Sprintf("t%d", i), Name: fmt.Sprintf("t%d", i), Dep: -1}
@@ -136,10 +143,14 @@ func genHProj(ch *vs.Choices, prop string) *hProj {
 		}
 		if ch.Bool(1, 6) {
 			t.Label = "lab-" + t.ID
+			if ch.Bool(1, 2) {
+				t.Label = "lab" + hLong + t.ID
+			}
 		}
 		t.Pre = (ch.Bool(1, 4) || (prop == "C13" && ch.Bool(2, 3))) && !t.Dir // (a precondition runs in the task's dir, which must exist)
 		t.SrcDep = ch.Bool(1, 2)
 		t.Gen2 = t.Generates && ch.Bool(1, 3)
+		t.IgnAll = ch.Bool(1, 6)
 		p.Tasks = append(p.Tasks, t)
 	}
 	for _, t := range p.Tasks {
@@ -169,10 +180,14 @@ func genHProj(ch *vs.Choices, prop string) *hProj {
 				t.Dep, t.SrcDep = -1, false
 			}
 		}
-		t0.Param, t0.ID, t0.Label, t0.Dir, t0.Call, t0.Dep, t0.SrcDep = "a", t0.ID+"-a", "plab-a", false, false, -1, false
+		plab := "plab-"
+		if ch.Bool(1, 2) {
+			plab = "plab" + hLong
+		}
+		t0.Param, t0.ID, t0.Label, t0.Dir, t0.Call, t0.Dep, t0.SrcDep = "a", t0.ID+"-a", plab+"a", false, false, -1, false
 		t0.Sources = []hGlob{{Pat: "src/a.txt"}}
 		tb := *t0
-		tb.Param, tb.ID, tb.Label, tb.NoRender = "b", strings.TrimSuffix(t0.ID, "-a")+"-b", "plab-b", true
+		tb.Param, tb.ID, tb.Label, tb.NoRender = "b", strings.TrimSuffix(t0.ID, "-a")+"-b", plab+"b", true
 		tb.Sources = []hGlob{{Pat: "src/b.txt"}}
 		p.Tasks = append(p.Tasks, &tb)
 	}
@@ -253,7 +268,7 @@ func (p *hProj) renderTask(sb *strings.Builder, t *hTask) {
 	fmt.Fprintf(sb, "  %s:\n    desc: task %s\n", yqH(key), t.Name)
 	if t.Label != "" {
 		if t.Param != "" {
-			sb.WriteString("    label: 'plab-{{.MOD}}'\n")
+			fmt.Fprintf(sb, "    label: '%s{{.MOD}}'\n", strings.TrimSuffix(t.Label, t.Param))
 		} else {
 			fmt.Fprintf(sb, "    label: %s\n", t.Label)
 		}
@@ -306,20 +321,27 @@ func (p *hProj) renderTask(sb *strings.Builder, t *hTask) {
 		fmt.Fprintf(sb, "    preconditions:\n      - sh: %s\n        msg: precondition of %s refused\n", yqH("test ! -f "+pre+"ctl/pre-"+id), id)
 	}
 	sb.WriteString("    cmds:\n")
-	fmt.Fprintf(sb, "      - %s\n", yqH("echo b:"+id+" >> "+pre+"trace.log"))
-	fmt.Fprintf(sb, "      - %s\n", yqH("test ! -f "+pre+"ctl/fail-"+id+"-1"))
+	sh := func(text string) {
+		if t.IgnAll {
+			fmt.Fprintf(sb, "      - cmd: %s\n        ignore_error: true\n", yqH(text))
+		} else {
+			fmt.Fprintf(sb, "      - %s\n", yqH(text))
+		}
+	}
+	sh("echo b:" + id + " >> " + pre + "trace.log")
+	sh("test ! -f " + pre + "ctl/fail-" + id + "-1")
 	if t.Call {
 		fmt.Fprintf(sb, "      - task: chk-%s\n", id)
 	}
 	if t.Generates {
 		// the generated content differs on every run (number of trace lines so far; shell builtins only)
-		fmt.Fprintf(sb, "      - %s\n", yqH("n=0; while read l; do n=$((n+1)); done < "+pre+"trace.log; echo generated-$n > "+pre+"out/"+id+".gen"))
+		sh("n=0; while read l; do n=$((n+1)); done < " + pre + "trace.log; echo generated-$n > " + pre + "out/" + id + ".gen")
 	}
 	if t.Gen2 {
-		fmt.Fprintf(sb, "      - %s\n", yqH("echo second > "+pre+"out/"+id+".gen2"))
+		sh("echo second > " + pre + "out/" + id + ".gen2")
 	}
-	fmt.Fprintf(sb, "      - %s\n", yqH("test ! -f "+pre+"ctl/fail-"+id+"-2"))
-	fmt.Fprintf(sb, "      - %s\n", yqH("echo e:"+id+" >> "+pre+"trace.log"))
+	sh("test ! -f " + pre + "ctl/fail-" + id + "-2")
+	sh("echo e:" + id + " >> " + pre + "trace.log")
 }
 
 func yqH(s string) string { return "'" + strings.ReplaceAll(s, "'", "''") + "'" }
@@ -464,6 +486,9 @@ func restamp(root string, now time.Time) {
 	_ = filepath.Walk(root, func(p string, info os.FileInfo, err error) error {
 		if err != nil {
 			return nil
+		}
+		if info.Mode()&os.ModeSymlink != 0 {
+			return nil // (Chtimes would follow the link and restamp its target)
 		}
 		if info.ModTime().After(limit) {
 			_ = os.Chtimes(p, now, now)
@@ -861,6 +886,9 @@ func runHOne(t *testing.T, ch *vs.Choices, prop string, render bool, p *hProj, h
 			}
 			for _, f := range hInitialFiles {
 				write(f, "content of "+f+"\n")
+			}
+			if p.Symlink {
+				_ = os.Symlink("../other/z.txt", filepath.Join(dir, "src", "link.txt"))
 			}
 			write("trace.log", "")
 			for _, tk := range p.Tasks {
